@@ -31,7 +31,8 @@ var stringPool = []string{
 	strings.Repeat("k", 1024), "ab́", "\U0010ffff",
 }
 
-var idPool = []string{"1", "2", "3", "10", "a", "b", "ab", "id-1", "id_2", "A", "é", "日本", "a b", "a/b", "a?b", "a#b", "a%b", "a&b", "a+b", "\"q\"", "<i>", "x\\y", "\x00", "😀", "0", "-", ".", "~", "a,b", "[1]"}
+var idPool = []string{"1", "2", "3", "10", "a", "b", "ab", "id-1", "id_2", "A", "é", "日本", "a b", "a/b", "a?b", "a#b", "a%b", "a&b", "a+b", "\"q\"", "<i>", "x\\y", "\x00", "😀", "0", "-", ".", "~", "a,b", "[1]",
+	"01", "007", "1a", "+7", "1e3", "0x1", "2 ", " 2", "-0", "9", "10a", "..", "a//b", "./k"}
 
 var safeIDPool = []string{"1", "2", "3", "10", "a", "b", "ab", "id-1", "id_2", "A", "x9", "0", "zz", "k.1", "~t"}
 
